@@ -50,9 +50,13 @@ def pos_of(stream):
     except Exception:
         return -1
 
+class Watchdog(BaseException):
+    "raised from the sink when one call produces more events than any terminating call in scope could"
+
 class Recorder:
     """per-thread event recorder; install with `with Recorder() as rec:`"""
-    def __init__(self, gate=None, values=True):
+    def __init__(self, gate=None, values=True, max_events=4000):
+        self.max_events = max_events
         self.tl = threading.local()
         self.gate = gate
         self.values = values
@@ -65,7 +69,7 @@ class Recorder:
 
     def start(self, root):
         st = self._st()
-        st["stack"] = []; st["skip"] = 0; st["events"] = []; st["on"] = True; st["root"] = root
+        st["stack"] = []; st["skip"] = 0; st["events"] = []; st["on"] = True; st["root"] = root; st["count"] = 0
 
     def stop(self):
         st = self._st()
@@ -76,6 +80,10 @@ class Recorder:
         st = self._st()
         if not st["on"]:
             return
+        st["count"] += 1
+        if st["count"] > self.max_events:
+            st["on"] = False
+            raise Watchdog()
         if phase == "enter":
             if st["skip"]:
                 st["skip"] += 1
@@ -174,6 +182,8 @@ def _outcome(fn):
     except BaseException as e:
         if isinstance(e, (KeyboardInterrupt, SystemExit, MemoryError)):
             raise
+        if isinstance(e, Watchdog):
+            return False, None, "Watchdog"
         return False, None, type(e).__name__
 
 def run_parse(rec, con, data, start=0, kw=None, fault=None):
@@ -185,6 +195,8 @@ def run_parse(rec, con, data, start=0, kw=None, fault=None):
     rec.start(con)
     ok, val, err = _outcome(lambda: con.parse_stream(stream, **kw))
     events = rec.stop()
+    if err == "Watchdog":
+        events = events[:40]
     return {"op": "parse", "events": events,
             "res": {"ok": ok, "v": V.enc(val) if ok else {"t": "none"}, "err": err, "p": pos_of(stream)}}
 
@@ -198,6 +210,8 @@ def run_build(rec, con, obj, pre=b"", kw=None, fault=None):
     rec.start(con)
     ok, val, err = _outcome(lambda: con.build_stream(obj, stream, **kw))
     events = rec.stop()
+    if err == "Watchdog":
+        events = events[:40]
     out = stream.getvalue()
     return {"op": "build", "events": events,
             "res": {"ok": ok, "v": V.VBytes(out[len(pre):]) if ok else {"t": "none"}, "err": err, "p": pos_of(stream)}}
